@@ -153,6 +153,59 @@ type verifC14Obs struct {
 	listedSince map[string]bool // instance served a crunch-run --list since the last restart
 	bugs        []string
 	nStartCalls int
+	pool        pool // the current dispatcher's (unwrapped) pool
+	epoch       int  // number of restarts so far
+	untracked   []string
+	nTrackCheck int
+}
+
+// all live processes, per existing VM
+func (o *verifC14Obs) procTable() map[string]map[string]bool {
+	r := map[string]map[string]bool{}
+	for _, vm := range o.cloud.sis.VerifC14VMs() {
+		m := map[string]bool{}
+		for _, u := range vm.VerifC14Procs() {
+			m[u] = true
+		}
+		r[vm.VerifC14ID()] = m
+	}
+	return r
+}
+
+// Design invariant I1 / theorem C14_processes_tracked observed on the real pool: a process that is
+// alive on an instance before and after a Running() snapshot, on an instance whose worker was
+// already Idle or Running (hence probed) before that snapshot, must be reported by Running().
+func (o *verifC14Obs) checkTracked() {
+	o.mtx.Lock()
+	p, epoch := o.pool, o.epoch
+	o.mtx.Unlock()
+	if p == nil {
+		return
+	}
+	t1 := o.procTable()
+	views := p.Instances()
+	running := p.Running()
+	t3 := o.procTable()
+	o.mtx.Lock()
+	defer o.mtx.Unlock()
+	if o.epoch != epoch {
+		return
+	}
+	o.nTrackCheck++
+	for _, v := range views {
+		if v.WorkerState != "idle" && v.WorkerState != "running" {
+			continue
+		}
+		id := string(v.Instance)
+		for u := range t1[id] {
+			if !t3[id][u] {
+				continue
+			}
+			if _, ok := running[u]; !ok {
+				o.untracked = append(o.untracked, fmt.Sprintf("%d@%s", verifC14Num(u), strings.Replace(id, ",", "_", -1)))
+			}
+		}
+	}
 }
 
 func verifC14Num(uuid string) int {
@@ -246,6 +299,7 @@ func (o *verifC14Obs) wrapVM(svm *test.StubVM) {
 			st.held = o.idle[id]
 			o.starts = append(o.starts, st)
 			o.mtx.Unlock()
+			o.checkTracked()
 			return rc
 		}
 		if command == "crunch-run --list" {
@@ -525,6 +579,9 @@ func verifC14Run(p verifC14Params) (out string) {
 		}
 		d.setupOnce.Do(d.initialize)
 		d.queue = queue
+		obs.mtx.Lock()
+		obs.pool = d.pool
+		obs.mtx.Unlock()
 		d.pool = &verifC14Pool{pool: d.pool, o: obs}
 		go d.run()
 		return d
@@ -578,6 +635,8 @@ func verifC14Run(p verifC14Params) (out string) {
 			case "restart":
 				disp.Close()
 				obs.mtx.Lock()
+				obs.epoch++
+				obs.pool = nil
 				obs.restartAt = time.Now()
 				obs.listedSince = map[string]bool{}
 				obs.lastCall = map[int]*verifC14Start{}
@@ -585,6 +644,9 @@ func verifC14Run(p verifC14Params) (out string) {
 				obs.lastKill = -1
 				obs.mtx.Unlock()
 				nrestart++
+				// the old process is gone; its SSH commands that were already on the wire finish
+				// before the supervisor has started a new dispatcher
+				time.Sleep(150 * time.Millisecond)
 				disp = newDisp()
 			case "cancel":
 				uuid := test.ContainerUUID(rng.Intn(p.n) + 1)
@@ -670,8 +732,12 @@ func verifC14Run(p verifC14Params) (out string) {
 	if len(obs.bugs) > 0 {
 		bugs = strings.Join(obs.bugs, ";")
 	}
-	return fmt.Sprintf("e2e starts=%d calls=%d done=%d/%d restarts=%d vms=%d ms=%d bugs=%s obs=%s",
-		len(obs.starts), obs.nStartCalls, ndone, p.n, nrestart, nvm, elapsed.Milliseconds(), bugs, obsStr)
+	untracked := "-"
+	if len(obs.untracked) > 0 {
+		untracked = strings.Join(obs.untracked, ";")
+	}
+	return fmt.Sprintf("e2e starts=%d calls=%d done=%d/%d restarts=%d vms=%d ms=%d trackchecks=%d untracked=%s bugs=%s obs=%s",
+		len(obs.starts), obs.nStartCalls, ndone, p.n, nrestart, nvm, elapsed.Milliseconds(), obs.nTrackCheck, untracked, bugs, obsStr)
 }
 
 func verifC14Case(line string) string {
